@@ -323,10 +323,10 @@ func exec(spec string) (res engine.Result) {
 		return
 	case strings.HasPrefix(spec, "count:"):
 		// count:<coreFrom>:<spineFrom>:<spine 0|1>:<dev> - size of an enumeration (development aid)
-		var cf, sf, sp, dev int
-		_, _ = fmt.Sscanf(spec, "count:%d:%d:%d:%d", &cf, &sf, &sp, &dev)
+		var cf, sf, df, sp, dev int
+		_, _ = fmt.Sscanf(spec, "count:%d:%d:%d:%d:%d", &cf, &sf, &df, &sp, &dev)
 		n := 0
-		newGenerator(genOpts{coreFrom: cf, spineFrom: sf, spine: sp == 1}).roots(dev, func(string) { n++ })
+		newGenerator(genOpts{coreFrom: cf, spineFrom: sf, deepFrom: df, spine: sp == 1}).roots(dev, func(string) { n++ })
 		res.Outcome = fmt.Sprint(n)
 		return
 	case strings.HasPrefix(spec, "bench:"):
